@@ -406,6 +406,13 @@ def handle (ws : List String) : String :=
       | some b => toHex b
       | none => "!"
     s!"{r.2} lock={lockS} reports={r.1.reports.length} mails={r.1.mails.length} own={if r.1.reports.all (fun x => x.1 == x.2) then 1 else 0}"
+  | "lock" :: "killed" :: lk :: dir :: err :: dt :: [] =>
+    let w : Lock.World := { lock := optHex lk }
+    let r := Lock.killed w (hexArg dir) (err.toInt?.getD 0) (dt == "1")
+    let lockS := match r.lock with
+      | some b => toHex b
+      | none => "!"
+    s!"lock={lockS} immutable={if r.immutable then 1 else 0} reports={r.reports.length} mails={r.mails.length} alive={if Lock.alive (Lock.kill w) (hexArg dir) then 1 else 0} next={if (Lock.acquire r (hexArg dir ++ [46, 50])).2 then 1 else 0}"
   | "wait" :: all :: args :: batches :: [] =>
     let bs : List (List Nat) := if batches == "-" then [] else (batches.splitOn "|").map fun b => (b.splitOn ";").filterMap (·.toNat?)
     match Wait.run (all == "1") ((listOf args).map hexArg) bs with
